@@ -291,7 +291,7 @@ def make_environ(method='GET', path='/', query='', headers=(), body_input=None,
         'wsgi.version': (1, 0),
         'wsgi.url_scheme': scheme,
         'wsgi.input': body_input if body_input is not None else io.BytesIO(b''),
-        'wsgi.errors': sys.stderr,
+        'wsgi.errors': io.StringIO(),
         'wsgi.multithread': True,
         'wsgi.multiprocess': False,
         'wsgi.run_once': False,
